@@ -1043,6 +1043,19 @@ func structuralRows() []row {
 			{"groupErr{boom,nil,wrap}", "error-group", ge, func(key string) []string {
 				return []string{kv(key, vStr("group")), kv(key+"Causes", vArr("", []string{errObjLine("boom"), errObjLine("wrap: boom")}))}
 			}},
+			// groups of one entry, of only nil entries, of none: nil causes are skipped whatever the length
+			{"groupErr{nil}", "error-group", &groupErr{"g1", []error{nil}}, func(key string) []string {
+				return []string{kv(key, vStr("g1")), kv(key+"Causes", vArr("", nil))}
+			}},
+			{"groupErr{nil,nil}", "error-group", &groupErr{"g2", []error{nil, nil}}, func(key string) []string {
+				return []string{kv(key, vStr("g2")), kv(key+"Causes", vArr("", nil))}
+			}},
+			{"groupErr{boom}", "error-group", &groupErr{"g3", []error{e1}}, func(key string) []string {
+				return []string{kv(key, vStr("g3")), kv(key+"Causes", vArr("", []string{errObjLine("boom")}))}
+			}},
+			{"groupErr{}", "error-group", &groupErr{"g4", []error{}}, func(key string) []string {
+				return []string{kv(key, vStr("g4")), kv(key+"Causes", vArr("", nil))}
+			}},
 		}
 		var nc, ec []kase
 		for _, v := range vals {
